@@ -79,6 +79,12 @@ def gen_base(rng, want):
                     nm = base_name          # collides with the first one once punctuation is mapped to '_'
                 a["argv"] = [a["flag"], a["argv"][1].replace(a["name"] + "=", nm + "=", 1)]
                 a["name"] = nm
+    if rng.random() < want.get("empty_name_p", 0.0):
+        # the empty name is a name like any other ("-g =^ACGT")
+        side = rng.choice([x for x in (sc.ads1, sc.ads2) if x])
+        a = side[rng.randrange(len(side))]
+        a["argv"] = [a["flag"], a["argv"][1].replace(a["name"] + "=", "=", 1)]
+        a["name"] = ""
     if rng.random() < want.get("unknown_name_p", 0.0):
         # an adapter that happens to be called like the file for reads without adapter
         for side in ([sc.ads1] if rng.random() < 0.6 else [sc.ads1, sc.ads2]):
